@@ -557,6 +557,116 @@ def r9_counts_are_not_truncated(cx):
         raise AnchorLost("count narrowing sites in the creator: %d" % n)
 
 
+def _ok_payloads(b, call_blk):
+    """locals that hold the Ok value of the Result returned by the call ending block `call_blk` (through `?`, unwrap, expect)"""
+    copies = b.whole_copies({b.term(call_blk)["dest"]["l"]})
+    out = set()
+    for i, t in b.calls(r"Try>::branch$", r"Result::<.*>::(unwrap|expect)$"):
+        if not t["args"] or op_local(t["args"][0]) not in copies or t["args"][0].get("mv", t["args"][0].get("cp", {})).get("p"):
+            continue
+        y = t["dest"]["l"]
+        if call_is(t, r"Try>::branch$"):
+            for blk in b.blocks:
+                for st in blk["s"]:
+                    if st["k"] == "assign" and st["rv"]["k"] == "use":
+                        pl = op_place(st["rv"]["op"])
+                        if pl is not None and pl["l"] == y and any(isinstance(e, dict) and e.get("n") == "Continue" for e in pl.get("p", [])) and not st["lhs"].get("p"):
+                            out.add(st["lhs"]["l"])
+        else:
+            out.add(y)
+    return b.whole_copies(out) if out else out
+
+
+def _through_tuples(b, vals):
+    """the same values after a trip through a tuple (the argument tuple of an inlined closure call): `t = (v,)`, `x = t.0`"""
+    vals = set(vals)
+    changed = True
+    while changed:
+        changed = False
+        slots = set()
+        for blk in b.blocks:
+            for st in blk["s"]:
+                rv = st.get("rv") or {}
+                if st["k"] == "assign" and rv.get("k") == "agg" and rv.get("ak") == "tuple" and not st["lhs"].get("p"):
+                    for k, a in enumerate(rv["fields"]):
+                        pl = op_place(a)
+                        if pl is not None and pl["l"] in vals and not pl.get("p"):
+                            slots.update((t, k) for t in b.whole_copies({st["lhs"]["l"]}))
+        for blk in b.blocks:
+            for st in blk["s"]:
+                rv = st.get("rv") or {}
+                if st["k"] == "assign" and rv.get("k") == "use" and not st["lhs"].get("p") and st["lhs"]["l"] not in vals:
+                    pl = op_place(rv["op"])
+                    pr = [e for e in (pl or {}).get("p", []) if e != "*"]
+                    if pl is not None and len(pr) == 1 and isinstance(pr[0], dict) and (pl["l"], pr[0].get("f")) in slots:
+                        vals |= b.whole_copies({st["lhs"]["l"]})
+                        changed = True
+    return vals
+
+
+def r10_stored_positions_are_pack_relative(cx):
+    """'offsets': what a pack stores about itself is relative to its own first byte. The creators that write a pack
+    into a stream they are given (FinalizedDirectoryPackCreator::write, ManifestPackCreator::finalize) record the
+    position of the stream at entry and subtract it from every position they compute; the positions handed back by
+    WritableTell::write (indexes, entry stores, value stores) are absolute positions of that stream, so each of them
+    is taken apart and its offset goes through a subtraction of the recorded origin -- none is stored as it is
+    returned (in a stream that is not at 0 the pack would point outside of itself)."""
+    F = cx.F
+    n = 0
+    for f in F.live_fns:
+        if "blocks" not in f or f.get("kind") == "closure" or not re.search(r"^creator::", f["name"]):
+            continue
+        if not any(call_is(blk["t"], r"WritableTell>::write$") for blk in f["blocks"] if not blk.get("cleanup")):
+            continue
+        b = F.deep_body(f, only=r"^\b$", closures=True)     # local closures called directly are part of the body
+        ws = b.calls(r"WritableTell>::write$")
+        pos = [i for i, _ in b.calls(r"Seek>::stream_position$") if all(b.dominates(i, w) for w, _ in ws)]
+        subs = []
+        for i, blk in enumerate(b.blocks):
+            if blk.get("cleanup"):
+                continue
+            for st in blk["s"]:
+                rv = st.get("rv") or {}
+                if st["k"] == "assign" and rv.get("k") == "bin" and rv["op"] in ("Sub", "SubWithOverflow", "SubUnchecked"):
+                    ob_ = b.origins(rv["b"])
+                    if any(("call", p) in ob_ for p in pos):
+                        subs.append((i, st, b.origins(rv["a"])))
+        origin = [p for p in pos if any(("call", p) in b.origins(st["rv"]["b"]) for _, st, _ in subs)]
+        if not origin:
+            continue     # this function does not rebase anything: it does not write a pack at a recorded origin
+        nm = ((f.get("impl_self") or "").split("<")[0].split("::")[-1] + "." + f["item_name"]) if f.get("impl_self") and f.get("item_name") else f["name"].split("::")[-1]
+        for k, (w, t) in enumerate(ws):
+            n += 1
+            vals = _through_tuples(b, _ok_payloads(b, w))
+            rebased = [ln for _, st, oa in subs if ("call", w) in oa for ln in [st.get("ln")]]
+            whole = []
+            for i, blk in enumerate(b.blocks):
+                if blk.get("cleanup"):
+                    continue
+                tt = blk["t"]
+                if tt["k"] == "call" and not call_is(tt, r"Try>::branch$", r"Result::<.*>::(unwrap|expect)$"):
+                    for a in tt["args"]:
+                        pl = op_place(a)
+                        if pl is not None and pl["l"] in vals and not pl.get("p") and ("mv" in a or "cp" in a):
+                            whole.append(tt.get("ln"))
+                for st in blk["s"]:
+                    rv = st.get("rv") or {}
+                    if st["k"] == "assign" and rv.get("k") == "agg" and rv.get("ak") != "tuple":
+                        for a in rv["fields"]:
+                            pl = op_place(a)
+                            if pl is not None and pl["l"] in vals and not pl.get("p"):
+                                whole.append(st.get("ln"))
+                    elif st["k"] == "assign" and rv.get("k") == "use" and st["lhs"].get("p"):
+                        pl = op_place(rv["op"])
+                        if pl is not None and pl["l"] in vals and not pl.get("p"):
+                            whole.append(st.get("ln"))
+            cx.ob("R10", "R10/%s/position-of-part#%d-is-pack-relative" % (nm, k), bool(vals) and bool(rebased) and not whole, f,
+                  "the position returned by WritableTell::write at line %s has the origin of the pack subtracted (lines %s) and is not stored as returned (stored whole at lines %s)" % (
+                      t.get("ln"), rebased, sorted(set(whole))), ln=t.get("ln"))
+    if n < 4:
+        raise AnchorLost("parts written through WritableTell::write by creators that record an origin: %d" % n)
+
+
 def r2c_content_address_key_byte(cx):
     """key byte of a content-address property: 0b0001_DPCC -- the P bit (pack id on two bytes) is set whenever
     pack_id_size is U2, whether or not the column has a default value (D): under `pack_id_size = U2` no write of the
@@ -581,6 +691,7 @@ def r2c_content_address_key_byte(cx):
 
 
 RULES = [
+    ("R10", r10_stored_positions_are_pack_relative, 4),
     ("R9", r9_counts_are_not_truncated, 5),
     ("R2", r2c_content_address_key_byte, 1),
     ("R8", r8_cluster_pointers_are_tail_offsets, 3),
